@@ -17,7 +17,10 @@
 // Package simhook provides yield points for the deterministic-simulation harness.
 package simhook
 
-import "sync/atomic"
+import (
+	"strings"
+	"sync/atomic"
+)
 
 type hookFn func(point, key string)
 
@@ -35,8 +38,8 @@ func SetHook(f func(point, key string)) {
 
 // Yield marks a point where a simulator may park the calling goroutine.
 // Must never be called with a sync.Mutex held.
-func Yield(point, key string) {
+func Yield(point string, key ...string) {
 	if h := hook.Load(); h != nil {
-		(*h)(point, key)
+		(*h)(point, strings.Join(key, "/"))
 	}
 }
